@@ -1,6 +1,7 @@
 import HappyModel.Proto
 import HappyModel.C07.Spec
 import HappyModel.C07.Rearm
+import HappyModel.C07.Timers
 /-! Line-protocol driver for C07 (other side: `hv/props/c07.py`).
 
 * `begin model <family>` — C07 has no per-component model: the model side states what the theorems
@@ -9,6 +10,10 @@ import HappyModel.C07.Rearm
 * `begin rearm <default capacity> <t0 ns> <end ns>` + lines `b <ns> <lossy 0|1>` (boundaries in schedule order)
   and `s <lo> <hi> <cap>` (shifts over boundary indices) — the `_ShiftChange` deliveries of the modelled
   `ShiftedServer` timer (`Rearm.observed`): `past 0`, `timetravel 0`, `spin 0`, then `sc <ns> <capacity>` lines.
+* `begin tick <interval ns> <t0 ns> <end ns>` — the periodic daemon (`Timers.ticksUntil`): `past 0`, `timetravel 0`,
+  `spin 0`, then one `tk <ns>` line per tick delivery up to the end (compared with JobScheduler's `_scheduler_tick`).
+* `begin manualtick <end ns>` + lines `m <ns>` — manual ticks of a component whose interval is 0 = disabled
+  (`Timers.manualTicks`; compared with CRDTStore's `GossipTick`): one `tk <ns>` line per delivery.
 * `begin judge <family> <bound>` + trace lines (`p clock time emitter`, `d clock n`, `w n`) —
   evaluates `judge` (the executable form of `Holds`, see `judge_none_iff_holds`). -/
 namespace HappyModel.C07.Driver
@@ -53,8 +58,20 @@ def rearmBlock (dflt t0 endT : Nat) (body : List String) : List String :=
   let ss := body.filterMap (fun l => parseShift (toks l))
   expectation ++ (Rearm.observed bs ss dflt t0 endT).map (fun p => s!"sc {p.1} {p.2}")
 
+def manualBlock (endT : Nat) (body : List String) : List String :=
+  let ms := body.filterMap (fun l => match toks l with
+    | ["m", t] => nat? t
+    | _ => none)
+  expectation ++ (Timers.manualTicks ms endT).map (fun t => s!"tk {t}")
+
 def handle (hdr : List String) (body : List String) : List String :=
   match hdr with
+  | ["tick", iv, t0, endT] => match nat? iv, nat? t0, nat? endT with
+    | some i, some t, some e => expectation ++ (Timers.ticksUntil i t e).map (fun t => s!"tk {t}")
+    | _, _, _ => ["bad-args"]
+  | ["manualtick", endT] => match nat? endT with
+    | some e => manualBlock e body
+    | none => ["bad-args"]
   | ["rearm", dflt, t0, endT] => match nat? dflt, nat? t0, nat? endT with
     | some d, some t, some e => rearmBlock d t e body
     | _, _, _ => ["bad-args"]
